@@ -256,6 +256,11 @@ func genIntr(r *rng, out *bufio.Writer, n int) {
 						if r.chance(10) {
 							in.Data = append(in.Data, r.u8())
 						}
+						if r.chance(20) {
+							// the stack next to the vector table entry: a pushed byte lands on the word the CPU is about to jump through
+							t := v.W[8]&0xff00 | uint16(in.Data[0]&0xfe)
+							v.W[11] = t + uint16(r.n(6)) - 1
+						}
 					default:
 						if r.chance(30) {
 							in.Data = []uint8{r.u8()}
@@ -263,6 +268,10 @@ func genIntr(r *rng, out *bufio.Writer, n int) {
 					}
 					if r.chance(4) {
 						in.Data = nil
+					}
+					if (ty == 0 || im == 1) && r.chance(8) {
+						// the stack next to the fixed entry address (0066h / 0038h)
+						v.W[11] = []uint16{0x0066, 0x0038}[ty] + uint16(r.n(5))
 					}
 					v.Intr = in
 					v.N = 1 + r.n(2)
